@@ -112,6 +112,11 @@ async def execute_server_command(future_loop, result_future, klong, command, nc)
         traceback.print_exception(type(e), e, e.__traceback__)
         future_loop.call_soon_threadsafe(result_future.set_exception, KlongException("internal error"))
         logging.error(f"TcpClientHandler::handle_client: Klong error {e}")
+    except SystemExit as e:
+        # a request that leaves the evaluation through an exit (".x(0)") is a failed request: left to propagate it ends
+        # the klong loop's thread, the caller and every later request of any connection would wait forever
+        future_loop.call_soon_threadsafe(result_future.set_exception, KlongException(f"exit requested: {e.code}"))
+        logging.error(f"TcpClientHandler::handle_client: exit requested by a remote command: {e.code}")
     finally:
         del klong._context[handle_sym]
 
